@@ -11,7 +11,7 @@ CONSTANTS
   TwoPools = FALSE
   RsvLast = FALSE
   MaxOps = 2
-  MaxCrash = 1
+  MaxCrash = 0
   MaxConf = 2
   MaxTicks = 0
   MaxCaps = 0
